@@ -1208,6 +1208,62 @@ fn gen_random(rng: &mut Rng, rep: &mut Report) -> Case {
     Case { subject: if rng.gen_bool(0.3) { "state".into() } else { "actor".into() }, causal: rng.gen_bool(0.25), rids: pool[..n].to_vec(), steps: ev.into_iter().map(|e| e.2).collect(), fin, sim_seed: 0, auto_ae: false }
 }
 
+/// One replica is the only hash writer of the key and never learns of the other replicas' whole-key writes (DEL,
+/// SET) before quiescence, so it never starts a new incarnation of the hash; the others overwrite / delete the key
+/// after having received some of its hash updates. Every hash update a peer can adopt must therefore be as complete
+/// as the writer's own state: this class has to converge (it is outside the listed hash-incarnation finding).
+fn gen_single_hash_writer(rng: &mut Rng) -> Case {
+    let n = rng.gen_range(2..=4usize);
+    let mut pool = vec![1u64, 2, 3, 4, 5, 7, 9];
+    pool.shuffle(rng);
+    let nh = rng.gen_range(3..=8usize);
+    let fields = ["f", "g", "h", "i", "j"];
+    let mut ev: Vec<(u64, u64, Step)> = vec![];
+    let mut fin = vec![];
+    let mut id = 0usize;
+    for i in 0..nh {
+        let f = fields[rng.gen_range(0..fields.len())].to_string();
+        let cmd = match rng.gen_range(0..10) {
+            0..=5 => Cmd::HSet(vec![(f, VALS.choose(rng).unwrap().to_string())]),
+            6 => Cmd::HSet(vec![(f, "1".into()), (fields[rng.gen_range(0..fields.len())].to_string(), "2".into())]),
+            7 | 8 => Cmd::HIncrBy(f, rng.gen_range(-3..9)),
+            _ => Cmd::HDel(vec![f]),
+        };
+        let t = i as u64 * 100;
+        ev.push((t, 0, Step::Op { id, at: 0, key: 0, cmd }));
+        for to in 1..n {
+            fin.push((id, to));
+            if rng.gen_bool(0.7) {
+                ev.push((t + 1 + rng.gen_range(0..300), rng.gen(), Step::Deliver { op: id, to }));
+            }
+        }
+        id += 1;
+    }
+    // whole-key writes by the other replicas, somewhere in the middle; delivered among the others, never to the writer
+    for _ in 0..rng.gen_range(1..=3usize) {
+        let at = rng.gen_range(1..n);
+        let t = rng.gen_range(50..(nh as u64) * 100);
+        let cmd = match rng.gen_range(0..4) {
+            0 | 1 => Cmd::Del(vec![0]),
+            2 => set(VALS.choose(rng).unwrap()),
+            _ => set_with(VALS.choose(rng).unwrap(), |_, _, _, xx, _, _| *xx = true),
+        };
+        ev.push((t, 1, Step::Op { id, at, key: 0, cmd }));
+        for to in 0..n {
+            if to != at {
+                fin.push((id, to));
+                if to != 0 && rng.gen_bool(0.6) {
+                    ev.push((t + 1 + rng.gen_range(0..200), rng.gen(), Step::Deliver { op: id, to }));
+                }
+            }
+        }
+        id += 1;
+    }
+    ev.sort_by_key(|e| (e.0, e.1));
+    fin.shuffle(rng);
+    Case { subject: if rng.gen_bool(0.3) { "state".into() } else { "actor".into() }, causal: false, rids: pool[..n].to_vec(), steps: ev.into_iter().map(|e| e.2).collect(), fin, sim_seed: 0, auto_ae: false }
+}
+
 /// A history for MultiNodeSimulation: SET/DEL mixes with gossip rounds, loss, partitions and anti-entropy.
 fn gen_sim(rng: &mut Rng) -> Case {
     let n = rng.gen_range(2..=5usize);
@@ -1282,6 +1338,18 @@ pub fn converge_leg(args: &Args) {
         do_case(&mut rep, &case, "R");
         if i == 0 {
             rep.sample(json!({"part": "R", "case": case}));
+        }
+    }
+    // H: single hash writer against whole-key writes of the others
+    let mut rng = args.rng(62);
+    for i in 0..args.get_u64("single-writer", if t { 6000 } else { 800 }) {
+        if !want("H") {
+            break;
+        }
+        let case = gen_single_hash_writer(&mut rng);
+        do_case(&mut rep, &case, "H");
+        if i == 0 {
+            rep.sample(json!({"part": "H", "case": case}));
         }
     }
     // S: the simulator's own glue
